@@ -199,6 +199,22 @@ fn test(c: &Case, st: &mut Stats) -> TestResult {
                     alts.push(Creds::Short {
                         password: format!("{}:{}:{}", user, realm, password),
                     });
+                    // the field boundaries moved by one character: the concatenation of the three
+                    // fields is the same, the key (user:realm:password) is not
+                    if let Some(c) = user.chars().last() {
+                        let mut u = user.clone();
+                        u.pop();
+                        alts.push(Creds::Long { user: u, realm: format!("{}{}", c, realm), password: password.clone() });
+                    }
+                    if let Some(c) = realm.chars().next() {
+                        alts.push(Creds::Long { user: format!("{}{}", user, c), realm: realm[c.len_utf8()..].to_string(), password: password.clone() });
+                    }
+                    if let Some(c) = password.chars().next() {
+                        alts.push(Creds::Long { user: user.clone(), realm: format!("{}{}", realm, c), password: password[c.len_utf8()..].to_string() });
+                    }
+                    // case, surrounding blanks
+                    alts.push(Creds::Long { user: user.to_uppercase(), realm: realm.clone(), password: password.clone() });
+                    alts.push(Creds::Long { user: user.clone(), realm: format!("{} ", realm), password: password.clone() });
                     // same derived key, different split: must still validate
                     if let Some((u1, r1)) = user.split_once(':') {
                         let same = Creds::Long {
